@@ -261,3 +261,51 @@ Definition pre_check (c : cfg) (t : tree) : bool * bool :=
     command on the object is refused until reset) *)
 Definition staged_inv_ok (c : cfg) (t : tree) : bool :=
   match read_file t (c_so c ++ [c_inv c]) with Some (CInv _ _ _ _ _) => true | _ => false end.
+
+(** C05, recovery after a kill: the staged inventory ON DISK (when it is complete) lists only head content files
+    that exist, in the staged object or - once the version directory was moved - at the same relative path in the
+    object.  This is what stage_inventory-before-unlink guarantees: the choice dedup_head made is on disk before
+    anything is deleted, so a retried commit never takes a deleted file for the copy to keep. *)
+Definition is_file_at (t : tree) (p : fpath) : bool :=
+  match lookup t p with Some (File c) => negb (content_eqb c CPartial) | _ => false end.
+
+Definition staged_refs_ok (c : cfg) (t : tree) : bool :=
+  match read_file t (c_so c ++ [c_inv c]) with
+  | Some (CInv _ _ _ man _) => forallb (fun d => is_file_at t (c_so c ++ d) || is_file_at t (c_mo c ++ d)) man
+  | _ => true
+  end.
+
+(** ... at every kill position of program p *)
+Definition kill_refs_ok (p : prog) (c : cfg) (t : tree) : bool :=
+  forallb (fun k => staged_refs_ok c (run_tree (prog_of p c) t (Kill k)))
+          (List.seq 0 (S (List.length (model_log p c t)))).
+
+(** a dedup instance with several identical new files: v2 adds five copies of one new content in two directories;
+    dedup_head keeps the third *)
+Definition exm_man : list fpath :=
+  [[xs "v2"; xs "content"; xs "m"; xs "c0"]; [xs "v2"; xs "content"; xs "m"; xs "c1"]; [xs "v2"; xs "content"; xs "m"; xs "c2"];
+   [xs "v2"; xs "content"; xs "t3"]; [xs "v2"; xs "content"; xs "t4"]].
+Definition exm_dups : list fpath :=
+  [[xs "v2"; xs "content"; xs "m"; xs "c0"]; [xs "v2"; xs "content"; xs "m"; xs "c1"];
+   [xs "v2"; xs "content"; xs "t3"]; [xs "v2"; xs "content"; xs "t4"]].
+Definition exm_inv : invr := mkInv 5 [xs "v1"; xs "v2"] ex_d10 exm_man exm_dups.
+Definition exm_tree : tree :=
+  [ ([xs "stg"], Dir); ([xs "stg"; xs "locks"], Dir); (ex_so, Dir);
+    (ex_so ++ [xs "inventory.json"], File (tok_of exm_inv));
+    (ex_so ++ [xs "inventory.json.sha512"], File (CSide 5));
+    (ex_so ++ [ex_d10], File (CDecl ex_d10));
+    (ex_so ++ [xs "v2"], Dir); (ex_so ++ [xs "v2"; xs "content"], Dir); (ex_so ++ [xs "v2"; xs "content"; xs "m"], Dir);
+    (ex_so ++ [xs "v2"; xs "content"; xs "m"; xs "c0"], File (CBlob 4));
+    (ex_so ++ [xs "v2"; xs "content"; xs "m"; xs "c1"], File (CBlob 4));
+    (ex_so ++ [xs "v2"; xs "content"; xs "m"; xs "c2"], File (CBlob 4));
+    (ex_so ++ [xs "v2"; xs "content"; xs "t3"], File (CBlob 4));
+    (ex_so ++ [xs "v2"; xs "content"; xs "t4"], File (CBlob 4));
+    ([xs "root"], Dir); (ex_mo, Dir);
+    (ex_mo ++ [ex_d10], File (CDecl ex_d10));
+    (ex_mo ++ [xs "inventory.json"], File ex_oldinv);
+    (ex_mo ++ [xs "inventory.json.sha512"], File (CSide 3));
+    (ex_mo ++ [xs "v1"], Dir);
+    (ex_mo ++ [xs "v1"; xs "inventory.json"], File ex_oldinv);
+    (ex_mo ++ [xs "v1"; xs "inventory.json.sha512"], File (CSide 3));
+    (ex_mo ++ [xs "v1"; xs "content"], Dir);
+    (ex_mo ++ [xs "v1"; xs "content"; xs "b"], File (CBlob 2)) ].
